@@ -31,17 +31,22 @@ CLAIMED = {
         "ref": "5-C16",
     },
     "C19": {
-        "text": "Proof, for the STEP-ORDER / CLIENT-ID SLICE of the property only: ClientIds::check_client_id returns true only if the step table (after expiring old entries) has the "
-                "client id at exactly the step asked for, then sets that client's step to the given next step, never changes another client's step (entries only disappear by expiry) and "
-                "changes nothing when it returns false; new_client_id registers step Test01 for exactly the id it returns; every step method Test01..Test11 and End first checks the "
-                "client id against its own step name under the table lock and, if the table as found does not have the client at that step (unknown id, step out of order), sends "
-                "ClientIdError as its only reply and runs nothing else; whenever anything else happens the client's step has become the next step name of the canonical sequence. "
-                "NOT claimed: the check_call_*! comparisons of call mode and parameter values with the canonical ones (macro-expanded over generated types and floats), Start's own "
-                "check, the generated dispatch, and that concurrent clients make progress (the RwLock is std's; interference between acquisitions is modelled, exclusivity assumed).",
-        "note": NOTE_COMMON + "T12: in each step method only the first statement (the client-id gate) is the verified text; the remaining statements are replaced by an opaque continuation that may send "
-                "anything through `call` (the extractor refuses if the dropped text mentions `self`); `&self` is specialised to `&mut self` (T8) so that the lock stand-in can record what an "
-                "acquisition found; `&mut dyn Call_TestNN` is specialised to its supertrait (T8c); VecDeque, StringHashMap, Instant, DefaultHasher and the generated VarlinkCallError trait are "
-                "stand-ins with assumed contracts; seeded changes to the unclaimed clauses of C19 (value and call-mode checks) will not be detected by this check.",
+        "text": "Proof, for the STEP-ORDER / CLIENT-ID / CALL-MODE / VALUE-COMPARISON SLICE of the property: ClientIds::check_client_id returns true only if the step table (after expiring old "
+                "entries) has the client id at exactly the step asked for, then sets that client's step to the given next step, never changes another client's step (entries only "
+                "disappear by expiry) and changes nothing when it returns false; new_client_id registers step Test01 for exactly the id it returns; every step method Test01..Test11 "
+                "and End first checks the client id against its own step name under the table lock and, if the table as found does not have the client at that step (unknown id, step out "
+                "of order), sends ClientIdError as its only reply and runs nothing else; the part of a step that sends its success reply is reachable only with a request whose method is "
+                "the step's own name, whose call mode is the step's own (more exactly for Test10, oneway exactly for Test11, neither for the others, never upgrade), and whose parameters "
+                "decoded to the step's (generated) argument type and were compared equal to the value the step expects; every other request ends in CertificationError. "
+                "NOT claimed: that the expected values are the ones of the certification protocol (they are the code's own constants), that derived == on the generated types is "
+                "structural equality, Start's own check, the generated dispatch, and that concurrent clients make progress (the RwLock is std's; interference between acquisitions is "
+                "modelled, exclusivity assumed).",
+        "note": NOTE_COMMON + "T12: in each step method the statements up to and including its check_call_*! invocation are the verified text; the statements after it (building and sending the success reply) are "
+                "replaced by an opaque continuation whose PRECONDITION is the obligation (the extractor refuses if the dropped text mentions `self`); the check_call_*! macros are extracted "
+                "verbatim (reference patterns rewritten to match-ergonomics form); the argument structs are taken from the output of the repository's own generator, run on the repository's "
+                "interface definition on every check (G1); `&self` is specialised to `&mut self` (T8) so that the lock stand-in can record what an acquisition found; `&mut dyn Call_TestNN` "
+                "is specialised to one flattened stand-in trait (T8c) whose contracts (reply_client_id_error, reply_certification_error, get_request) are ASSUMED, as is `the dispatch calls "
+                "a step with the request it is serving`; VecDeque, StringHashMap, Instant, DefaultHasher, serde_json::from_value are stand-ins with assumed contracts.",
         "ref": "5-C19",
     },
     "C20": {
